@@ -70,9 +70,10 @@ PROPS["C03"] = {
     "rule": ("Scenario = method + status + generated upstream header set (Cache-Control grammar: directive subsets, order, letter case, separators, 1-3 header lines, numeric edge values; "
              "Set-Cookie none/one/several/empty-first; Age valid/invalid; Expires/Last-Modified). r1 fetches, r2/r3 repeat. Oracle = reference predicate from the statement "
              "(only-if always; if-direction on canonical inputs) + label truthfulness against the upstream log. Non-trivial = >=2 directives, non-lower-case, multi-line, or Set-Cookie/Age present. "
-             "Distinct by (method, header list, status)."),
+             "Distinct by (method, header list, status). TestC03Histories: the delivery and label clauses over generated histories (GET/HEAD/POST/DELETE keys, expiry, refetches that turn uncacheable, waiters, passes, stores) judged by the per-key automaton: "
+             "a response that does not qualify reaches only the request that fetched it, every non-hit answer has exactly one upstream contact, hits have none."),
     "assumptions": _SIM_ASSUME[:1] + ["spellings of max-age/s-maxage other than lower case, malformed or overflowing numbers, invalid Age values and empty-only Set-Cookie lines are treated as left open by the statement (either outcome accepted) unless no reading yields a positive lifetime"],
-    "jobs": [_sim("TestC03", 4000, 150000)],
+    "jobs": [_sim("TestC03", 4000, 150000), _sim("TestC03Histories", 800, 25000)],
 }
 PROPS["C04"] = {
     "level": "exploration",
